@@ -1,2 +1,268 @@
-/- Property theorems for C14 (placeholder until the proofs land). -/
-import Avt.Spec.C14
+/-
+  Avt.Props.C14 — property C14: no scrolled-off line is lost, duplicated, reordered or altered.
+
+  Technique (DESIGN.md §6 C14): the same lock-step relation as C12 (`Frame.Rel`, non-strict variant:
+  the two terminals may have different scrollback limits), with the lines handed out through
+  `Changes.scrollback` as the ghost accumulator: `gc` moves a PREFIX of the primary scrollback from
+  the buffer to the output (`Frame.gc_spec`, `Frame.finish_rel`), discards alternate-screen rows
+  without handing them out, and every `Function` other than RIS preserves the relation
+  (`Frame.frame_execute`).
+
+  Obligations (kernel-checked, no hypotheses other than those stated):
+    C14_gc_prefix        `gc` removes exactly a prefix of the scrollback and hands out exactly that prefix;
+                         view, geometry, limit untouched
+    C14_finish           the same for the tail of `feed_str`; on the alternate screen nothing is handed out
+    C14_stream           sessions of `feed_str` calls only, any two chunkings of the same input, limit L vs.
+                         unlimited, no RIS among the emitted functions, ending on the primary screen:
+                           drained(L) ++ lines(L) = lines(unlimited)   and   drained(unlimited) = []
+    C14_stream_general   the same from any pair of related start states (not only fresh terminals)
+    unwrapMany_append    `TextUnwrapper` is a fold that commutes with list append
+    C14_collector        the text a `TextCollector` yields (streamed parts ++ flush, before the final
+                         trimming of trailing empty strings) depends only on `drained ++ lines`, hence
+                         — by C14_stream — not on the limit nor on the chunking
+    C14_collector_trailing  the exact law including `flush`'s trimming: the outputs of two collectors
+                         agree after dropping trailing empty strings (`sameTextModTrailingBlank`)
+    C14_collector_law    closed form: `dropTrailingEmpty (tcOut L) = tcOut ∞`
+    C14_collector_full_false  … and NOT in general as plain lists (finding KF5): witness 4x1, limit 0, "\n"
+-/
+import Avt.Lemmas.FrameStream
+
+namespace Avt.C14
+open Avt Avt.Frame Avt.Spec.C14
+
+/-! ### gc and finish -/
+
+/-- `gc` drops exactly a prefix of the scrollback and hands out exactly that prefix, in order; the
+    view, the geometry and the limit are untouched -/
+theorem C14_gc_prefix (b : Buffer) :
+    ∃ k, (b.gc).1.sb = b.sb.drop k ∧ (b.gc).2 = b.sb.take k ∧ (b.gc).1.view = b.view
+      ∧ (b.gc).1.cols = b.cols ∧ (b.gc).1.rows = b.rows ∧ (b.gc).1.limit = b.limit
+      ∧ (b.gc).2 ++ (b.gc).1.lines = b.lines :=
+  ⟨gcCount b, (gc_sb b).1, (gc_sb b).2, (gc_view b).1, (gc_view b).2.1, (gc_view b).2.2.1,
+    (gc_view b).2.2.2.1, gc_lines b⟩
+
+/-- the tail of `feed_str`: on the primary screen what is handed out followed by what is kept is what
+    was there; on the alternate screen nothing is handed out; the view never changes -/
+theorem C14_finish (v : Vt) :
+    (v.finish).1.view = v.view
+    ∧ (v.terminal.activeBufferType = .primary → (v.finish).2.scrollback ++ (v.finish).1.lines = v.lines)
+    ∧ (v.terminal.activeBufferType = .alternate → (v.finish).2.scrollback = [])
+    ∧ (v.finish).1.parser = v.parser := by
+  refine ⟨(gc_view v.terminal.buffer).1, fun hT => ?_, fun hT => ?_, rfl⟩
+  · rw [finish_scrollback, hT]
+    exact gc_lines v.terminal.buffer
+  · rw [finish_scrollback, hT]; rfl
+
+/-! ### the stream equation -/
+
+/-- **C14, general form.**  `u` is unlimited, `v` has any limit, and they are related (same screen,
+    `u` holds `P.prim` more primary scrollback).  Two sessions of `feed_str` calls whose inputs
+    concatenate to the same string, no RIS among the emitted functions, ending on the primary
+    screen: the unlimited terminal hands out nothing, and its lines are the extra scrollback, then
+    what the limited terminal handed out, then the limited terminal's lines. -/
+theorem C14_stream_general {P : Par} {u v u' v' : Vt} {du dv : List Line} {ops ops' : List (List Nat)}
+    (R : VRel P u v) (Ru : VRel ⟨true, true, none, P.T, [], []⟩ u u) (hg : P.g = true)
+    (hcat : ops.flatten = ops'.flatten)
+    (hnr : Function.ris ∉ emitted v.parser ops.flatten)
+    (hv : runFeeds v ops = some (v', dv)) (hu : runFeeds u ops' = some (u', du))
+    (hT : v'.terminal.activeBufferType = .primary) :
+    du = [] ∧ u'.lines = P.prim ++ dv ++ v'.lines := by
+  obtain ⟨g, P', hgv, R', _, _, _, hp, _, _⟩ := runFeeds_ghost ops R hg (Or.inr hnr) hv
+  obtain ⟨g2, Q', hgu, RQ, _, _, _, _, hd, he⟩ := runFeeds_ghost ops' Ru rfl (Or.inl rfl) hu
+  rw [← hcat, hgv] at hgu; cases hgu
+  have hdu : du = [] := hd rfl rfl
+  have hq : Q'.prim = [] := he rfl rfl (by cases P.T <;> rfl)
+  have hTu : u'.terminal.activeBufferType = .primary := by
+    rw [← RQ.term.activeBufferType, R'.term.activeBufferType]; exact hT
+  have e1 : g.terminal.buffer.lines = P'.prim ++ v'.terminal.buffer.lines := lines_ghost R'.term hT
+  have e2 : g.terminal.buffer.lines = Q'.prim ++ u'.terminal.buffer.lines := lines_ghost RQ.term hTu
+  refine ⟨hdu, ?_⟩
+  show u'.terminal.buffer.lines = P.prim ++ dv ++ v'.terminal.buffer.lines
+  rw [hq, List.nil_append] at e2
+  rw [← e2, e1, hp hnr]
+
+/-- **C14.**  Fresh terminals of the same size, limit `L` vs. unlimited, the same input under any two
+    chunkings, no RIS, ending on the primary screen: the lines handed out through
+    `Changes.scrollback` over the session, followed by the final `lines()`, are exactly the lines of the
+    unlimited terminal — same order, each exactly once, cell for cell (pens and wrap marks
+    included); and the unlimited terminal hands out nothing. -/
+theorem C14_stream {c r L : Nat} {v0 u0 v u : Vt} {dv du : List Line} {ops ops' : List (List Nat)}
+    (hv0 : Vt.new c r (some L) = some v0) (hu0 : Vt.new c r none = some u0)
+    (hcat : ops.flatten = ops'.flatten)
+    (hnr : Function.ris ∉ emitted Parser.new ops.flatten)
+    (hv : runFeeds v0 ops = some (v, dv)) (hu : runFeeds u0 ops' = some (u, du))
+    (hT : v.terminal.activeBufferType = .primary) :
+    streamEq dv v u = true ∧ du = [] := by
+  have hp : v0.parser = Parser.new := by
+    unfold Vt.new at hv0
+    cases ht : Terminal.new c r (some L) with
+    | none => simp [ht] at hv0
+    | some t => simp [ht] at hv0; rw [← hv0]
+  have h := C14_stream_general (new_rel hu0 hv0) (new_rel_self hu0) rfl hcat (hp ▸ hnr) hv hu hT
+  refine ⟨?_, h.1⟩
+  unfold streamEq
+  have : u.lines = dv ++ v.lines := by simpa [Par.prim] using h.2
+  simp [this]
+
+/-! ### TextUnwrapper / TextCollector -/
+
+/-- `TextUnwrapper` is a fold: pushing `xs ++ ys` is pushing `xs`, then `ys` with the carried-over
+    partial line, and the outputs concatenate -/
+theorem unwrapMany_append (acc : List Nat) (xs ys : List Line) :
+    unwrapMany acc (xs ++ ys) =
+      ((unwrapMany (unwrapMany acc xs).1 ys).1, (unwrapMany acc xs).2 ++ (unwrapMany (unwrapMany acc xs).1 ys).2) := by
+  induction xs generalizing acc with
+  | nil => simp [unwrapMany]
+  | cons l ls ih =>
+    simp only [List.cons_append, unwrapMany]
+    rw [ih]
+    cases (unwrapPush acc l).2 <;> simp
+
+/-- what a `TextCollector` streams out while it is fed lines in chunks (the `scrollback` of
+    successive calls), with the unwrapper state it ends in -/
+def streamChunks : List Nat → List (List Line) → List Nat × List (List Nat)
+  | acc, [] => (acc, [])
+  | acc, ch :: chs =>
+    let r := unwrapMany acc ch
+    let r' := streamChunks r.1 chs
+    (r'.1, r.2 ++ r'.2)
+
+theorem streamChunks_flatten (acc : List Nat) (chs : List (List Line)) :
+    streamChunks acc chs = unwrapMany acc chs.flatten := by
+  induction chs generalizing acc with
+  | nil => rfl
+  | cons ch chs ih =>
+    simp only [streamChunks, List.flatten_cons]
+    rw [unwrapMany_append, ih]
+
+/-- everything a collector yields before `flush` trims trailing empty strings: the streamed parts,
+    then the unwrapped final lines, then the carried-over partial line -/
+def collectedRaw (chunks : List (List Line)) (final : List Line) : List (List Nat) :=
+  let r := streamChunks [] chunks
+  let f := unwrapMany r.1 final
+  r.2 ++ f.2 ++ (unwrapFlush f.1).toList
+
+/-- everything a collector yields, as the crate does it: `flush` trims only its own part -/
+def collected (chunks : List (List Line)) (final : List Line) : List (List Nat) :=
+  let r := streamChunks [] chunks
+  let f := unwrapMany r.1 final
+  r.2 ++ TextCollector.dropTrailingEmpty (f.2 ++ (unwrapFlush f.1).toList)
+
+/-- the model's `TextCollector.flush` is the second half of `collected` -/
+theorem flush_eq (tc : TextCollector) :
+    tc.flush = TextCollector.dropTrailingEmpty
+      ((unwrapMany tc.acc tc.vt.lines).2 ++ (unwrapFlush (unwrapMany tc.acc tc.vt.lines).1).toList) := rfl
+
+/-- **C14, collector.**  The collected text depends only on the concatenation
+    `handed-out lines ++ final lines`: it is the unwrapping of that one list. -/
+theorem C14_collector (chunks : List (List Line)) (final : List Line) :
+    collectedRaw chunks final =
+      (unwrapMany [] (chunks.flatten ++ final)).2
+        ++ (unwrapFlush (unwrapMany [] (chunks.flatten ++ final)).1).toList := by
+  unfold collectedRaw
+  simp only [streamChunks_flatten]
+  rw [unwrapMany_append]
+
+/-- … hence, by `C14_stream`, it is the same for every limit and every chunking: whenever
+    `drained ++ lines = lines'` (the stream equation), the limited collector and the unlimited one
+    (which streams nothing) collect the same raw text -/
+theorem C14_collector_indep {chunks : List (List Line)} {final final' : List Line}
+    (h : chunks.flatten ++ final = final') :
+    collectedRaw chunks final = collectedRaw [] final' := by
+  rw [C14_collector, C14_collector, h]; rfl
+
+theorem dropTrailingEmpty_append_idem (a b : List (List Nat)) :
+    TextCollector.dropTrailingEmpty (a ++ TextCollector.dropTrailingEmpty b)
+      = TextCollector.dropTrailingEmpty (a ++ b) := by
+  unfold TextCollector.dropTrailingEmpty
+  simp only [List.reverse_append, List.reverse_reverse]
+  generalize b.reverse = rb
+  generalize a.reverse = ra
+  induction rb with
+  | nil => simp
+  | cons x xs ih =>
+    by_cases hx : x.isEmpty = true
+    · simp only [List.dropWhile_cons, hx, if_true, List.cons_append]
+      exact ih
+    · simp [hx]
+
+/-- **C14, collector, exact law with `flush`'s trimming.**  Two collectors whose line streams
+    concatenate to the same list yield texts that agree after dropping trailing empty strings
+    (`sameTextModTrailingBlank`, the oracle's KF5 classifier). -/
+theorem C14_collector_trailing {chunks : List (List Line)} {final final' : List Line}
+    (h : chunks.flatten ++ final = final') :
+    sameTextModTrailingBlank (collected chunks final) (collected [] final') = true := by
+  have hraw := C14_collector_indep h
+  unfold sameTextModTrailingBlank
+  have e1 : TextCollector.dropTrailingEmpty (collected chunks final)
+      = TextCollector.dropTrailingEmpty (collectedRaw chunks final) := by
+    unfold collected collectedRaw
+    simp only [List.append_assoc]
+    exact dropTrailingEmpty_append_idem _ _
+  have e2 : TextCollector.dropTrailingEmpty (collected [] final')
+      = TextCollector.dropTrailingEmpty (collectedRaw [] final') := by
+    unfold collected collectedRaw
+    simp only [List.append_assoc]
+    exact dropTrailingEmpty_append_idem _ _
+  rw [e1, e2, hraw]
+  simp
+
+/-- the same law in closed form: dropping the trailing empty strings of what the limited collector
+    yielded gives exactly what the unlimited collector yields:
+    `dropTrailingEmpty (tcOut L) = tcOut ∞` -/
+theorem C14_collector_law {chunks : List (List Line)} {final final' : List Line}
+    (h : chunks.flatten ++ final = final') :
+    TextCollector.dropTrailingEmpty (collected chunks final) = collected [] final' := by
+  have hraw := C14_collector_indep h
+  have e1 : TextCollector.dropTrailingEmpty (collected chunks final)
+      = TextCollector.dropTrailingEmpty (collectedRaw chunks final) := by
+    unfold collected collectedRaw
+    simp only [List.append_assoc]
+    exact dropTrailingEmpty_append_idem _ _
+  have e2 : collected [] final' = TextCollector.dropTrailingEmpty (collectedRaw [] final') := by
+    unfold collected collectedRaw
+    simp [streamChunks]
+  rw [e1, e2, hraw]
+
+/-- the property's literal consequence ("the same text for every limit"), as plain equality -/
+def C14_collector_full : Prop :=
+  ∀ (chunks : List (List Line)) (final final' : List Line), chunks.flatten ++ final = final' →
+    collected chunks final = collected [] final'
+
+/-- **It is false of the pinned code** (finding KF5): a blank line that was already streamed out stays,
+    while `flush` of the unlimited collector drops it.  Witness: 4x1, limit 0, input LF — the limited
+    collector yields `[""]`, the unlimited one `[]`. -/
+theorem C14_collector_full_false : ¬ C14_collector_full := by
+  intro h
+  have := h [[Line.blank 4 Pen.default]] [Line.blank 4 Pen.default]
+    [Line.blank 4 Pen.default, Line.blank 4 Pen.default] rfl
+  revert this
+  decide +kernel
+
+/-- the witness is what the model (and the crate) really do on a 4x1 terminal fed "\n" -/
+example :
+    (match Vt.new 4 1 (some 0), Vt.new 4 1 none with
+     | some v0, some u0 =>
+       (match runFeeds v0 [[0x0a]], runFeeds u0 [[0x0a]] with
+        | some (v, dv), some (u, du) =>
+          streamEq dv v u && du.isEmpty && (dv == [Line.blank 4 Pen.default])
+            && (collected [dv] v.lines == [[]]) && (collected [du] u.lines == [])
+        | _, _ => false)
+     | _, _ => false) = true := by decide +kernel
+
+/-- the hypotheses of `C14_stream` are satisfiable on a non-trivial session: 3x2, limit 1; wrapped
+    text, an excursion to the alternate screen that scrolls there, more text; chunked differently -/
+example :
+    (match Vt.new 3 2 (some 1), Vt.new 3 2 none with
+     | some v0, some u0 =>
+       let a : List Nat := [0x61, 0x62, 0x63, 0x64, 0x0a, 0x65, 0x0a, 0x66, 0x0a]
+       let b : List Nat := [0x1b, 0x5b, 0x3f, 0x34, 0x37, 0x68, 0x78, 0x0a, 0x79, 0x0a, 0x7a, 0x0a,
+                            0x1b, 0x5b, 0x3f, 0x34, 0x37, 0x6c, 0x67, 0x0a, 0x68, 0x0a, 0x69]
+       (match runFeeds v0 [a, b], runFeeds u0 [a.take 2, a.drop 2 ++ b.take 3, b.drop 3] with
+        | some (v, dv), some (u, du) =>
+          streamEq dv v u && du.isEmpty && (dv.length == 5) && (v.terminal.activeBufferType == .primary)
+            && !(emitted Parser.new (a ++ b)).contains .ris
+        | _, _ => false)
+     | _, _ => false) = true := by decide +kernel
+
+end Avt.C14
